@@ -6,3 +6,7 @@ Theorem C17 r hints s :
   (fsem (sudoku_form r hints) s = true <-> exists g, Sudoku.grid_ok r hints g /\ Sudoku.encodes r s g).
 Proof. exact (C17_formula r hints s). Qed.
 Print Assumptions C17.
+
+(** r = 1: the single cell must hold 1; with the given "1" the formula is satisfied by that assignment *)
+Example C17_instance : fsem (sudoku_form 1 ((0, 1) :: nil)) (fun v => Nat.eqb v 1) = true /\ fsem (sudoku_form 1 nil) (fun _ => false) = false.
+Proof. split; vm_compute; reflexivity. Qed.
